@@ -370,7 +370,7 @@ func (x *scriptRun) watch(absentOK bool) func() string {
 
 // spinCheck measures idle windows. One window at or below the threshold means "not spinning" (work left over
 // from a big frame dies down, a wedged loop does not). A spin is called when the client's reader goroutine is
-// running/runnable around two consecutive hot windows, or — for clients without a reader goroutine, or with a
+// running/runnable around five consecutive hot windows, or — for clients without a reader goroutine, or with a
 // parked one — when ten consecutive windows (3 s) are all hot.
 func (x *scriptRun) spinCheck() (bool, []int) {
 	kind := x.sc.Kind
@@ -379,6 +379,7 @@ func (x *scriptRun) spinCheck() (bool, []int) {
 	if ws[0] <= spinThreshold {
 		return false, ws
 	}
+	busyHot := 0
 	for len(ws) < 10 {
 		busyBefore := readerState(kind) == "running"
 		w := idleCPU(idleWindow)
@@ -388,7 +389,14 @@ func (x *scriptRun) spinCheck() (bool, []int) {
 			return false, ws
 		}
 		if busyBefore && readerState(kind) == "running" {
-			return true, ws
+			// a reader that is legitimately chewing on a multi-megabyte frame is also "running": it must stay
+			// hot and busy for five windows in a row (1.5 s) before it is called a spin
+			busyHot++
+			if busyHot >= 5 {
+				return true, ws
+			}
+		} else {
+			busyHot = 0
 		}
 	}
 	return true, ws
